@@ -90,6 +90,10 @@ def run(ck):
         ck.judge(not missing, "C11-P", "parse:skeleton-complete", "all %d grammar alternatives are accepting paths" % len(allowed),
                  "grammar alternatives with no accepting path (white space no longer optional there, or an alternative was removed): %s" % sorted(missing))
         ck.floor("C11-P", "Ok exits of parse", n, 13)
+    peeks = sk.direct_inspections()
+    ck.judge(not peeks, "C11-P", "parser:no-direct-inspection", "input is examined only through parser applications (the skeleton is exact)",
+             "input bytes are inspected directly, outside the parser combinators, so where white space / terminators are accepted no longer follows the grammar skeleton: %s"
+             % [(p.split("::")[-1], c.split("::")[-1], site, t) for p, c, site, t in peeks][:4], peeks[0][2] if peeks else None)
     for fn, sep in (("argument_separator", ","), ("header_separator", ":")):
         f = sk.fns.get(P + fn)
         if not ck.anchor("C11-P", P + fn, f):
@@ -133,3 +137,5 @@ def run(ck):
         ck.judge(ok, "C11-C", "program_mnemonic:classes", "mnemonic = [A-Za-z][A-Za-z0-9_]*", "mnemonic classes are %s" % [pid_name(p) for p in got])
     # case-insensitive whole-name child lookup
     c01.rule_M(ck, lib)
+    # short and long forms (and only those) are in the emitted trie, bound to the same handler
+    c01.rule_T(ck, T="C11-T", D="C11-D")
